@@ -20,7 +20,7 @@ func base(t string) string { return strings.TrimPrefix(t, "*") }
 func TermExpr(t, x string) string {
 	switch {
 	case t == "ctx":
-		return `"ctx"`
+		return "rt.CtxTerm(" + x + ")"
 	case strings.HasPrefix(t, "I"):
 		return "rt.TermOf(" + x + ")"
 	default:
@@ -29,6 +29,9 @@ func TermExpr(t, x string) string {
 }
 
 func (d *Decl) ctor(t, term string) string {
+	if t == "ctx" {
+		return "rt.Ctx(" + term + ")"
+	}
 	if strings.HasPrefix(t, "I") {
 		return "&T" + strings.TrimPrefix(t, "I") + "{R: " + term + "}"
 	}
@@ -49,7 +52,7 @@ func (d *Decl) ctor(t, term string) string {
 }
 
 func zero(t string) string {
-	if isPtr(t) || strings.HasPrefix(t, "I") {
+	if isPtr(t) || strings.HasPrefix(t, "I") || t == "ctx" {
 		return "nil"
 	}
 	return base(t) + "{}"
@@ -136,6 +139,11 @@ func (d *Decl) UsesCtx() bool {
 				return true
 			}
 		}
+		for _, t := range p.Provides {
+			if t == "ctx" {
+				return true
+			}
+		}
 	}
 	if tw := d.Twin(); tw != nil && tw.Target == "ctx" {
 		return true
@@ -148,6 +156,12 @@ func (d *Decl) UsesCtx() bool {
 func (d *Decl) EmitBody(withTypes bool) string {
 	var sb strings.Builder
 	if withTypes {
+		for _, p := range d.Provs {
+			if p.ErrAlias {
+				sb.WriteString("// Failure is just another spelling of error.\ntype Failure = error\n\n")
+				break
+			}
+		}
 		for _, b := range d.allTypes() {
 			switch {
 			case strings.HasPrefix(b, "I"):
@@ -200,7 +214,11 @@ func (d *Decl) emitInject(withProviders bool) string {
 			results = append(results, GoType(t))
 		}
 		if p.Fallible {
-			results = append(results, "error")
+			if p.ErrAlias {
+				results = append(results, "Failure")
+			} else {
+				results = append(results, "error")
+			}
 		}
 		res := strings.Join(results, ", ")
 		if len(results) > 1 {
